@@ -6,6 +6,7 @@ CONSTANTS
   AsIsDeviation = FALSE
   EnablePrune = TRUE
   EnableForeign = TRUE
+  SlowThr = 1000000
   Strict = TRUE
 SPECIFICATION TSpec
 INVARIANTS NoRequestBelowOldHeader FetchAllowed StoreOnHonestChain
